@@ -83,6 +83,12 @@ func genGid(r *kit.Rand) []string {
 		ls = append(ls, gidLine(true, "m", []string{"a"}, map[string]string{"a": "1\na=2"}))
 		ls = append(ls, gidLine(true, "m\na=1", []string{"a"}, map[string]string{"a": "2"}))
 		ls = append(ls, gidLine(true, "m", []string{"a"}, map[string]string{"a": "2"}))
+	case 9: // a dimension listed twice: another spelling (id) of the same tag values, consistent within one list
+		v := kit.Pick(r, valPool)
+		ls = append(ls, gidLine(byName, name, []string{"a", "a"}, map[string]string{"a": v}))
+		ls = append(ls, gidLine(byName, name, []string{"a", "a"}, map[string]string{"a": v, "zz": "1"}))
+		ls = append(ls, gidLine(byName, name, []string{"a"}, map[string]string{"a": v}))
+		ls = append(ls, gidLine(byName, name, []string{"a", "a"}, map[string]string{"a": kit.Pick(r, valPool)}))
 	case 4: // no dimensions at all: by name → the name, otherwise the nil group
 		ls = append(ls, gidLine(byName, name, nil, map[string]string{"a": kit.Pick(r, valPool)}))
 		ls = append(ls, gidLine(byName, kit.Pick(r, namePool), nil, map[string]string{"b": kit.Pick(r, valPool)}))
@@ -267,7 +273,7 @@ func genIso(r *kit.Rand, kind string, big bool) []string {
 		}
 	}
 	byName := r.Chance(1, 4)
-	dims := [][]string{{"host"}, {"dc", "host"}, {"host"}, {"h st"}, {}}[r.Intn(5)]
+	dims := [][]string{{"host"}, {"dc", "host"}, {"host"}, {"h st"}, {}, {"host", "host"}, {"dc", "host", "host"}}[r.Intn(7)]
 	if len(dims) == 0 {
 		byName = true // otherwise there is one group only
 	}
